@@ -57,6 +57,14 @@ var sqObservables = []string{"acc", "i", "j", "r", "q"}
 func sqRunProgK(defs, prog string) (res sqRunK) {
 	env := zygo.NewZlisp()
 	defer env.Close()
+	// a Go panic out of the interpreter is property C01's subject (e.g. `(begin)` used as a
+	// value, a known finding); here it is one more outcome that macro call and hand-written
+	// form must share
+	defer func() {
+		if r := recover(); r != nil {
+			res.outcome = "hostpanic:" + strings.ReplaceAll(fmt.Sprint(r), " ", "_")
+		}
+	}()
 	ticks := 0
 	env.AddFunction("zztick", func(e *zygo.Zlisp, name string, args []zygo.Sexp) (zygo.Sexp, error) {
 		ticks++
